@@ -670,6 +670,18 @@ pub fn corpus(prop: &str, tier: Tier, seed: u64) -> Vec<(usize, Layout)> {
             for b in [1u32, 7, 9, 17, 33, 65, 127] {
                 v.push(lay(b, vec![fld("all", 0, b, uty(b), Access::RW)]));
             }
+            // one field as wide as a native base (the builder's mask special case for 128 bits), with and
+            // without default, unsigned and signed, also split into two halves
+            for b in NATIVE {
+                for ty in [uty(b), FieldTy::INat { bits: b }] {
+                    let l = lay(b, vec![fld("all", 0, b, ty.clone(), Access::RW)]);
+                    let mut d = l.clone();
+                    d.default = Some(DefaultDecl { value: mask(b) / 3, named_const: false, radix: 16, const_name: None });
+                    v.push(l);
+                    v.push(d);
+                }
+                v.push(lay(b, vec![fld("lo", 0, b / 2, uty(b / 2), Access::W), fld("hi", b / 2, b / 2, uty(b / 2), Access::RW)]));
+            }
         }
         "C16" => {
             v.extend(sys_scalars(Tier::Quick, Access::RW).into_iter().filter(|l| l.fields.iter().any(|f| f.highest_bit() + 1 == l.base_bits)));
